@@ -83,8 +83,8 @@ def configs(tier):
         t(1, 1, (0,), d(7, 9), ["in1+", "in1-", "in2+", "in2-", "o1d0.2", "o1d1.2", "p-short", "p-off", "c-stall", "c-run"]),
         t(1, 2, (2,), d(7, 9), ["in1+", "in1-", "o1d0.1", "o1d1.0", "s-gst", "in0+", "o0d1.0", "p-short", "sof"]),
         # realistic full-speed byte pacing (8 cycles of the 12 MHz UTMI clock per byte, both directions)
-        t(2, 8, (7,), d(6, 8), ["s-gdd18", "in0+", "o0d1.0", "in1+", "in2+", "o1d0.1", "s-sa"]),
-        t(4, 8, (7,), d(6, 8), ["s-gst", "s-sc", "in0+", "in0-", "in1-", "o1d1.2", "sof", "o-in+ack"]),
+        t(2, 8, (7,), d(6, 9), ["s-gdd18", "in0+", "o0d1.0", "in1+", "in2+", "o1d0.1", "s-sa"]),
+        t(4, 8, (7,), d(6, 9), ["s-gst", "s-sc", "in0+", "in0-", "in1-", "o1d1.2", "sof", "o-in+ack"]),
         # bus errors
         t(1, 1, (0,), d(7, 9), ["s-gdd8", "in0+", "in1+", "o1d0.1", "n-outcrc", "n-setupcrc", "n-trunc-token", "n-trunc-data", "n-ack"], True),
         t(1, 1, (1,), d(7, 9), ["s-gst", "in0+", "o0d1.0", "in1-", "o1d0.2", "n-rxerr", "n-ping0", "n-ping1", "n-data", "n-tokcrc"], True),
@@ -92,7 +92,7 @@ def configs(tier):
     ]
     if not q:
         cs += [
-            t(1, 1, (0,), 7, ["s-gdd18", "s-gst", "s-sa", "s-sc", "s-vend", "in0+", "in0-", "o0d1.0", "in1+", "in1-", "in2+", "o1d0.1", "o1d1.1", "sof", "reset"]),
+            t(1, 1, (0,), 6, ["s-gdd18", "s-gst", "s-sa", "s-sc", "s-vend", "in0+", "in0-", "o0d1.0", "in1+", "in1-", "in2+", "o1d0.1", "o1d1.1", "sof", "reset"]),
             t(1, 1, (1,), 7, ["s-gstr", "s-gconf", "s-clr", "in0+", "in0-", "o0d1.0", "o0d0.1", "in1+", "in2-", "o1d0.2", "in3-", "o5d1.2", "o-setup"]),
             t(6, 3, (0, 2), 8, ["s-gcfg", "s-gdd8", "in0+", "o0d1.0", "in1+", "in1-", "o1d0.0", "o1d1.1", "p-short", "c-stall", "c-run"]),
         ]
